@@ -34,7 +34,7 @@ DEFAULT_W = dict(begin=6, write=30, get=14, scan=6, range=3, cur=16, sp=4, rbsp=
 
 
 class ProgGen:
-    def __init__(self, rng, model, opts="lc=3", weights=None, keys=None, max_tx=4, values=None, ts_mode=False):
+    def __init__(self, rng, model, opts="lc=3", weights=None, keys=None, max_tx=4, values=None, ts_mode=False, modes=None):
         self.rng, self.m = rng, model
         self.opts = opts
         self.w = dict(DEFAULT_W)
@@ -44,6 +44,7 @@ class ProgGen:
         self.max_tx = max_tx
         self.values = values
         self.ts_mode = ts_mode
+        self.modes = modes or [8, 2, 1]      # weights of rw / ro / wo at begin
         self.lines, self.exp = [], []
         self.tx = {}       # id -> dict(mode, closed, curs=set)
         self.cur = {}      # cid -> dict(tx, valid(bool), fresh)
@@ -113,7 +114,7 @@ class ProgGen:
                 return
             i = self.next_tx
             self.next_tx += 1
-            mode = rng.choices(["rw", "ro", "wo"], [8, 2, 1])[0]
+            mode = rng.choices(["rw", "ro", "wo"], self.modes)[0]
             self.emit("e2 begin %d %s" % (i, mode))
             self.tx[i] = dict(mode=mode, closed=False, curs=set())
         elif op == "write":
@@ -342,7 +343,7 @@ def explore_profiles(ctx, pid, profiles, nontrivial, classify=None, n_quick=60, 
         pf = profiles[i % len(profiles)]
         opts = rng.choice(pf["opts"])
         g = ProgGen(rng, model, opts=opts, weights=pf.get("weights"), keys=pf.get("keys"), max_tx=pf.get("max_tx", 4),
-                    values=pf.get("values"), ts_mode=pf.get("ts_mode", False))
+                    values=pf.get("values"), ts_mode=pf.get("ts_mode", False), modes=pf.get("modes"))
         g.start()
         if "prologue" in pf:
             pf["prologue"](g)
